@@ -5,6 +5,18 @@ Import ListNotations.
 Open Scope string_scope.
 
 
+(* saml2/server.py:Server.parse_authn_request, lines 225-247 *)
+Definition src2_parse_authn_request (parse_request_ext : pyval -> pyval -> pyval -> pyval -> pyval -> pyval -> pyval -> pyval -> pyval) (v_self : pyval) (v_enc_request : pyval) (v_binding : pyval) (v_relay_state : pyval) (v_sigalg : pyval) (v_signature : pyval) : pyval :=
+  (py_bind v_enc_request (fun a_1 => (py_bind v_binding (fun a_2 => (py_bind v_relay_state (fun a_3 => (py_bind v_sigalg (fun a_4 => (py_bind v_signature (fun a_5 => (parse_request_ext v_self a_1 (PStr "class AuthnRequest") (PStr "single_sign_on_service") a_2 a_3 a_4 a_5))))))))))).
+
+(* saml2/entity.py:Entity.parse_logout_request, lines 1549-1574 *)
+Definition src2_parse_logout_request (parse_request_ext : pyval -> pyval -> pyval -> pyval -> pyval -> pyval -> pyval -> pyval -> pyval) (v_self : pyval) (v_xmlstr : pyval) (v_binding : pyval) (v_relay_state : pyval) (v_sigalg : pyval) (v_signature : pyval) : pyval :=
+  (py_bind v_xmlstr (fun a_1 => (py_bind v_binding (fun a_2 => (py_bind v_relay_state (fun a_3 => (py_bind v_sigalg (fun a_4 => (py_bind v_signature (fun a_5 => (parse_request_ext v_self a_1 (PStr "class LogoutRequest") (PStr "single_logout_service") a_2 a_3 a_4 a_5))))))))))).
+
+(* saml2/request.py:Request.loads, lines 147-167 *)
+Definition src2_request_loads (loads_ext : pyval -> pyval -> pyval -> pyval -> pyval -> pyval -> pyval -> pyval -> pyval -> pyval) (v_self : pyval) (v_xmldata : pyval) (v_binding : pyval) (v_origdoc : pyval) (v_must : pyval) (v_only_valid_cert : pyval) (v_relay_state : pyval) (v_sigalg : pyval) (v_signature : pyval) : pyval :=
+  (py_bind v_xmldata (fun a_1 => (py_bind v_binding (fun a_2 => (py_bind v_origdoc (fun a_3 => (py_bind v_must (fun a_4 => (py_bind v_only_valid_cert (fun a_5 => (py_bind v_relay_state (fun a_6 => (py_bind v_sigalg (fun a_7 => (py_bind v_signature (fun a_8 => (loads_ext v_self a_1 a_2 a_3 a_4 a_5 a_6 a_7 a_8))))))))))))))))).
+
 (* saml2/sigver.py:RSACrypto.get_signer, lines 579-587 *)
 Definition src2_get_signer (signer_algs_ext : pyval) (v_self : pyval) (v_sigalg : pyval) (v_sigkey : pyval) : pyval :=
   let v_signer := PErr in
